@@ -48,6 +48,14 @@ func vfsTargetAsFile() {
 	}
 }
 
+func vfsTargetAsDangling() {
+	os.RemoveAll(vfsTarget())
+	vfsSeq++
+	if err := os.Symlink(filepath.Join(vfsJail, fmt.Sprintf("dangling%d", vfsSeq)), vfsTarget()); err != nil {
+		panic(err)
+	}
+}
+
 // vfsMakeLink: the directory T/rel (with everything beneath it) moves to a store outside the target and T/rel
 // becomes a symbolic link to it.
 func vfsMakeLink(rel []string) {
@@ -75,6 +83,13 @@ func vfsAdd(rel []string, kind int) {
 		return
 	}
 	os.MkdirAll(filepath.Dir(p), 0o755)
+	if kind == 4 {
+		vfsSeq++
+		if err := os.Symlink(filepath.Join(vfsJail, fmt.Sprintf("dangling%d", vfsSeq)), p); err != nil {
+			panic(err)
+		}
+		return
+	}
 	if err := os.WriteFile(p, []byte("pre-existing"), 0o644); err != nil {
 		panic(err)
 	}
@@ -145,6 +160,11 @@ func vfsKind(rel []string) int {
 	}
 	if info.IsDir() {
 		return 1
+	}
+	if info.Mode()&os.ModeSymlink != 0 {
+		if _, err := os.Stat(p); err != nil {
+			return 4
+		}
 	}
 	return 2
 }
